@@ -93,6 +93,19 @@ def impl(case):
                 except Exception as e:
                     tv.append({"err": C.exc_enum(e)})
             ex["transform"] = tv
+            # the same whole-number points as arrays of every numeric dtype: one answer
+            dts = {}
+            ipts = [[float(abs(round(v))) for v in G.to_float_pt(p)] for p in q["pts"]]
+            if ipts and ipts[0]:
+                for dt in ("float64", "float32", "int64", "int16", "uint8", "uint32"):
+                    try:
+                        cols = [np.array([p[i] for p in ipts]).astype(dt) for i in range(len(ipts[0]))]
+                        r = w.transform(ao, b, *cols, with_bounding_box=False)
+                        r = r if isinstance(r, tuple) else (r,)
+                        dts[dt] = [[float(v) for v in np.asarray(c, dtype=float).ravel()] for c in r]
+                    except Exception as e:
+                        dts[dt] = "err:" + C.exc_enum(e)
+            ex["dtypes"] = dts
             extra.append(ex)
         elif q["k"] == "call":
             vals = []
@@ -258,6 +271,15 @@ def oracle(case, res):
                     out.append(("compose", "get_transform(%s,%s) raised %s but every step transform/inverse evaluates" % (a, b, ans["err"])))
             if ex["by_obj"] != ans:
                 out.append(("name_or_object", "lookup by object differs from lookup by name for (%s,%s): %s vs %s" % (a, b, ex["by_obj"], ans)))
+            d0 = ex.get("dtypes", {}).get("float64")
+            if d0 is not None and not isinstance(d0, str):
+                for dt, dv in ex["dtypes"].items():
+                    same = (not isinstance(dv, str)) and len(dv) == len(d0) and all(
+                        len(x) == len(y) and all((u_ == v_) or (u_ != u_ and v_ != v_) or abs(u_ - v_) <= 1e-6 * max(1.0, abs(u_)) for u_, v_ in zip(x, y))
+                        for x, y in zip(dv, d0))
+                    if not same:
+                        out.append(("dtype", "WCS.transform(%s,%s) on %s arrays of whole numbers gives %s, on float64 arrays %s" % (a, b, dt, dv, d0)))
+                        break
             if "v" in ans and ex["transform"] != ans["v"]:
                 out.append(("transform", "WCS.transform(%s,%s) %s != get_transform evaluation %s" % (a, b, ex["transform"], ans["v"])))
         elif q["k"] == "call":
